@@ -11,6 +11,8 @@ EXPLANATION = ('(a) At every call site (engine crates, non-test) of a resource r
                'ManuallyDrop::new, Box::leak, Box/Arc/Rc::into_raw in the execution crates (RAII owners must drop). (c) Every struct that '
                'stores a spill file stores the ref-counted handle (Arc<dyn SpillFile> / RefCountedTempFile inside the disk manager), '
                'so the last drop deletes the file. Exact results under a memory limit and absence of hangs are not decided.')
+# path rules cut loops after a bounded number of iterations: complete over rule instances, not over all unrollings
+EXHAUSTIVE = False
 ASSUMPTIONS = ['the resource-request callee list is the set of fallible allocation / spill-write entry points of this code base']
 
 SCOPE = ('datafusion_physical_plan', 'datafusion_execution', 'datafusion_datasource', 'datafusion_datasource_parquet', 'datafusion_datasource_csv',
